@@ -112,6 +112,31 @@ func analyseRange(l *Loop) rangeInfo {
 			}
 		}
 	}
+	// "for i := 0; i < len(coll); i++ { e := coll[i] ... }" is a full range as well
+	if ci := analyseCounting(l); ci.OK && ci.Step == 1 && ci.Op == "<" {
+		if c0, ok := constInt(ci.Init); ok && c0 == 0 {
+			if call, ok := ci.Bound.(*ssa.Call); ok {
+				if b, ok := call.Call.Value.(*ssa.Builtin); ok && b.Name() == "len" {
+					ri := rangeInfo{Kind: "slice", Coll: call.Call.Args[0], Full: true}
+					// the collection expression may be re-evaluated in the body: accept loads of the same field
+					for blk := range l.Blocks {
+						for _, in := range blk.Instrs {
+							if ia, ok := in.(*ssa.IndexAddr); ok && ia.Index == ssa.Value(ci.Phi) && sameFieldLoad(ia.X, ri.Coll) {
+								for _, r := range *ia.Referrers() {
+									if u, ok := r.(*ssa.UnOp); ok && u.X == ssa.Value(ia) {
+										ri.ElemLoad = u
+									}
+								}
+							}
+						}
+					}
+					if ri.ElemLoad != nil {
+						return ri
+					}
+				}
+			}
+		}
+	}
 	// slice idiom
 	ifi, ok := h.Instrs[len(h.Instrs)-1].(*ssa.If)
 	if !ok {
@@ -447,4 +472,39 @@ func analyseCounting(l *Loop) countingInfo {
 	}
 	ci.OK = ci.Init != nil && ci.Step != 0
 	return ci
+}
+
+// sameFieldLoad: a and b are the same value, or loads of the same field through the same base.
+func sameFieldLoad(a, b ssa.Value) bool {
+	if a == b {
+		return true
+	}
+	ua, ok1 := a.(*ssa.UnOp)
+	ub, ok2 := b.(*ssa.UnOp)
+	if !ok1 || !ok2 {
+		return false
+	}
+	fa, ok1 := ua.X.(*ssa.FieldAddr)
+	fb, ok2 := ub.X.(*ssa.FieldAddr)
+	if !ok1 || !ok2 || fa.Field != fb.Field {
+		return false
+	}
+	return fieldKeyOf(fa.X, fa.Field) == fieldKeyOf(fb.X, fb.Field) && (fa.X == fb.X || sameFieldLoad(fa.X, fb.X) || sameAddrChain(fa.X, fb.X))
+}
+
+func sameAddrChain(a, b ssa.Value) bool {
+	if a == b {
+		return true
+	}
+	fa, ok1 := a.(*ssa.FieldAddr)
+	fb, ok2 := b.(*ssa.FieldAddr)
+	if ok1 && ok2 && fa.Field == fb.Field {
+		return sameAddrChain(fa.X, fb.X) || sameFieldLoad(fa.X, fb.X)
+	}
+	ua, ok1 := a.(*ssa.UnOp)
+	ub, ok2 := b.(*ssa.UnOp)
+	if ok1 && ok2 {
+		return sameAddrChain(ua.X, ub.X)
+	}
+	return false
 }
